@@ -173,6 +173,67 @@ pub fn run(a: &Args) -> Report {
             }
         };
 
+        if a.has("light") {
+            // the short form of the monitor (for slow interpreters): layout bytes both ways, nothing else
+            if lib_bytes != ref_bytes {
+                let at = lib_bytes.iter().zip(ref_bytes.iter()).position(|(a, b)| a != b).unwrap_or(lib_bytes.len().min(ref_bytes.len()));
+                rep.violation(&format!("{}/encode-differs", prop), format!("library encoding differs from the V14 layout at byte {} (lib {} bytes, layout {} bytes)", at, lib_bytes.len(), ref_bytes.len()), case());
+            }
+            match guard(|| PortableRegistry::decode(&mut &ref_bytes[..])) {
+                Ok(Ok(r2)) if r2 == r => {}
+                Ok(Ok(_)) => rep.violation(&format!("{}/lib-decode-of-ref", prop), "library decodes a different registry from layout bytes".into(), case()),
+                Ok(Err(e)) => rep.violation(&format!("{}/lib-decode-of-ref", prop), format!("library rejects layout bytes: {}", e), case()),
+                Err(p) => rep.violation(&format!("{}/lib-decode-of-ref", prop), format!("library panics on layout bytes: {}", p), case()),
+            }
+            rep.count("bytes_compared", ref_bytes.len() as u64);
+            return;
+        }
+        // Fault injection: an encoding attempt that is cut short (the destination panics, as the codec's adapter for
+        // io::Write does on any I/O error) must leave nothing behind: the next encodings on this thread are exact.
+        if i % 3 == 0 && !ref_bytes.is_empty() {
+            let mut frng = Rng::derive(seed ^ 0xfa17, i);
+            let limit = frng.below(ref_bytes.len());
+            let which = frng.below(3);
+            let ty0 = if r.types.is_empty() { None } else { Some(r.types[frng.below(r.types.len())].ty.clone()) };
+            let ty_before = ty0.as_ref().map(|t| t.encode());
+            let aborted = guard(|| match which {
+                0 => r.encode_to(&mut ShortWriter { left: limit }),
+                1 => r.encode_to(&mut PanickingOutput { left: limit }),
+                _ => {
+                    if let Some(t) = &ty0 {
+                        t.encode_to(&mut PanickingOutput { left: limit.min(ty_before.as_ref().map(|b| b.len().saturating_sub(1)).unwrap_or(0)) })
+                    }
+                }
+            });
+            if aborted.is_err() {
+                rep.count("encodings_aborted_by_a_failing_destination", 1);
+            }
+            let after = guard(|| {
+                let mut to = Vec::new();
+                r.encode_to(&mut to);
+                (r.encode(), to, r.using_encoded(|b| b.to_vec()), r.encoded_size(), (7u8, &r).encode(), ty0.as_ref().map(|t| t.encode()))
+            });
+            match after {
+                Ok((a, b, c, n, d, t)) => {
+                    let mut tup = vec![7u8];
+                    tup.extend_from_slice(&lib_bytes);
+                    if a != lib_bytes || b != lib_bytes || c != lib_bytes || n != lib_bytes.len() || d != tup || t != ty_before {
+                        rep.violation(
+                            &format!("{}/encoding-after-aborted-encoding", prop),
+                            format!("after an encoding attempt whose destination failed after {} bytes, the same value encodes differently on this thread (encode {} bytes, encode_to {}, using_encoded {}, encoded_size {}; before: {} bytes)", limit, a.len(), b.len(), c.len(), n, lib_bytes.len()),
+                            case(),
+                        );
+                        return;
+                    }
+                    rep.count("encodings_rechecked_after_abort", 1);
+                }
+                Err(p) => {
+                    rep.violation(&format!("{}/encode-panic", prop), format!("encode panicked after an aborted encoding: {}", p), case());
+                    return;
+                }
+            }
+        }
+
         match prop.as_str() {
             "C06" => {
                 if lib_bytes != ref_bytes {
@@ -406,6 +467,39 @@ pub fn run(a: &Args) -> Report {
     });
     rep.merge(body);
     rep
+}
+
+/// An io::Write destination that fails once `left` bytes were taken (the codec turns that into a panic).
+struct ShortWriter {
+    left: usize,
+}
+
+impl std::io::Write for ShortWriter {
+    fn write(&mut self, buf: &[u8]) -> std::io::Result<usize> {
+        if buf.len() > self.left {
+            self.left = 0;
+            return Err(std::io::Error::new(std::io::ErrorKind::Other, "destination full"));
+        }
+        self.left -= buf.len();
+        Ok(buf.len())
+    }
+    fn flush(&mut self) -> std::io::Result<()> {
+        Ok(())
+    }
+}
+
+/// A codec Output that panics once `left` bytes were taken.
+struct PanickingOutput {
+    left: usize,
+}
+
+impl scale::Output for PanickingOutput {
+    fn write(&mut self, bytes: &[u8]) {
+        if bytes.len() > self.left {
+            panic!("destination full");
+        }
+        self.left -= bytes.len();
+    }
 }
 
 fn truncate_json(v: &serde_json::Value) -> String {
